@@ -40,6 +40,9 @@ pub struct Acc {
     pub probes: BTreeMap<&'static str, u64>,
     pub inconclusive: u64,
     pub violations: Vec<(u64, Violation)>,
+    pub sets: BTreeMap<&'static str, HashSet<u64>>,
+    pub tables: BTreeMap<String, Vec<u64>>,
+    pub maxes: BTreeMap<&'static str, u64>,
 }
 
 const STATE_CAP: usize = 1_500_000;
@@ -69,6 +72,25 @@ impl Acc {
         if s.inconclusive {
             self.inconclusive += 1;
         }
+        for (k, v) in s.maxes {
+            let e = self.maxes.entry(k).or_insert(0);
+            *e = (*e).max(v);
+        }
+        for (k, v) in s.sets {
+            let e = self.sets.entry(k).or_default();
+            if e.len() < STATE_CAP {
+                e.extend(v);
+            }
+        }
+        for (k, v) in s.tables {
+            let e = self.tables.entry(k).or_insert_with(|| vec![0; v.len()]);
+            if e.len() < v.len() {
+                e.resize(v.len(), 0);
+            }
+            for (i, x) in v.iter().enumerate() {
+                e[i] += x;
+            }
+        }
         if let Some(v) = out.violation {
             if self.violations.len() < 64 || self.violations.iter().all(|(_, x)| x.signature() != v.signature()) {
                 self.violations.push((idx, v));
@@ -94,6 +116,22 @@ impl Acc {
         }
         self.inconclusive += o.inconclusive;
         self.violations.extend(o.violations);
+        for (k, v) in o.maxes {
+            let e = self.maxes.entry(k).or_insert(0);
+            *e = (*e).max(v);
+        }
+        for (k, v) in o.sets {
+            self.sets.entry(k).or_default().extend(v);
+        }
+        for (k, v) in o.tables {
+            let e = self.tables.entry(k).or_insert_with(|| vec![0; v.len()]);
+            if e.len() < v.len() {
+                e.resize(v.len(), 0);
+            }
+            for (i, x) in v.iter().enumerate() {
+                e[i] += x;
+            }
+        }
     }
 }
 
@@ -307,6 +345,10 @@ pub fn report(spec: &CheckSpec, _tier: Tier, seed: u64, res: &BatchResult) -> (i
 }
 
 pub fn write_evidence(spec: &CheckSpec, tier: Tier, seed: u64, res: &BatchResult, known_hit: &[String], nviol: usize, extra: Value) {
+    // sensitivity runs against deliberately broken trees must not overwrite the evidence of the real tree
+    if std::env::var("VERIF_NO_EVIDENCE").is_ok() {
+        return;
+    }
     let acc = &res.acc;
     let reach_zero: Vec<&str> = spec.expected_probes.iter().copied().filter(|p| acc.probes.get(p).copied().unwrap_or(0) == 0 && acc.faults.get(p).copied().unwrap_or(0) == 0).collect();
     let mut cov = json!({
@@ -329,6 +371,8 @@ pub fn write_evidence(spec: &CheckSpec, tier: Tier, seed: u64, res: &BatchResult
         "probes": acc.probes,
         "reach_zero": reach_zero,
         "inconclusive_runs": acc.inconclusive,
+        "maxima": acc.maxes,
+        "distinct": acc.sets.iter().map(|(k, v)| (k.to_string(), v.len())).collect::<BTreeMap<String, usize>>(),
         "components": {"real": spec.real, "stub": spec.stub},
         "known_findings_hit": known_hit,
         "workers": workers(),
